@@ -230,8 +230,13 @@ def gen_spec(H: Chooser, feat=None) -> dict:
                 table.append([kv, r])
             if feat.get("multi_dependent") and H.draw(2):
                 # a refinement depending on TWO siblings, named in non-alphabetical order, through a non-symmetric function
-                fields = [["k0", ["ann", ["int"], ["IntRange", 0, 2]]], ["k1", ["ann", ["int"], ["IntRange", 5, 6]]]] + fields[: max(0, feat["max_fields"] - 3)]
-                fields.append(["d0", ["ann", ["int"], ["Dependent2", "k1,k0"]]])  # value in [k1 - k0, k1]
+                if H.draw(2):
+                    fields = [["k0", ["ann", ["int"], ["IntRange", 0, 2]]], ["k1", ["ann", ["int"], ["IntRange", 5, 6]]]] + fields[: max(0, feat["max_fields"] - 3)]
+                    fields.append(["d0", ["ann", ["int"], ["Dependent2", "k1,k0"]]])  # value in [k1 - k0, k1]
+                else:
+                    # siblings of DIFFERENT base types: handing them to the callable in another order puts a bool into an int field
+                    fields = [["k0", ["bool"]], ["k1", ["ann", ["int"], ["IntRange", 5, 6]]]] + fields[: max(0, feat["max_fields"] - 3)]
+                    fields.append(["d0", ["ann", ["int"], ["Dependent3", "k1,k0"]]])  # value in {k1, k1 + 1}
             else:
                 fields = [["k0", key_t]] + fields[: feat["max_fields"] - 2] + [["d0", ["ann", [dep_base], ["Dependent", "k0", table]]]]
         return fields
@@ -353,6 +358,13 @@ def render_refinement(r, deps: list) -> str:
             return f"Dependent({r[1]!r}, lambda {a}, {b}: IntRange({a} - {b}, {a}))"
         fn = f"_dep{len(deps)}"
         deps.append(f"def {fn}({a}, {b}):\n    return IntRange({a} - {b}, {a})")
+        return f"Dependent({r[1]!r}, {fn})"
+    if k == "Dependent3":
+        a, b = r[1].split(",")
+        if INLINE_LAMBDAS[0]:
+            return f"Dependent({r[1]!r}, lambda {a}, {b}: IntList([{a}, {a} + 1]))"
+        fn = f"_dep{len(deps)}"
+        deps.append(f"def {fn}({a}, {b}):\n    return IntList([{a}, {a} + 1])")
         return f"Dependent({r[1]!r}, {fn})"
     if k == "Dependent":
         if INLINE_LAMBDAS[0]:
